@@ -122,4 +122,30 @@ def Reachable (W : Nat) (s : State) : Prop := ∃ ls, run W (init W) ls = some s
 /-- some step is enabled. -/
 def Enabled (W : Nat) (s : State) : Prop := ∃ l s', step W s l = some s'
 
+/-! ### what `Mine` does before the protocol starts (no goroutine exists yet)
+
+v1 computes the required number of trailing zeros first: if no hash can reach the target (a score above
+3^243/len, NaN) it waits for the context to be cancelled and returns the cancellation error.
+v2 returns nonce 0 for target 0 and validates the target (documented panic when len·target overflows 64 bits)
+before anything is started. Otherwise the protocol above runs. -/
+inductive Preamble
+  | protocol
+  | trivial (nonce : Nat)
+  | waitCancel
+  | invalidTarget
+deriving DecidableEq, Repr
+
+def preambleV1 (attainable : Bool) : Preamble := if attainable then .protocol else .waitCancel
+
+def preambleV2 (targetZero targetFits : Bool) : Preamble :=
+  if targetZero then .trivial 0 else if targetFits then .protocol else .invalidTarget
+
+/-- result of a call that stays in the preamble, given whether the context has been cancelled:
+`none` = still blocked; `some (some r)` = returned `r` (`none` = ErrCancelled); `some none` = panic in the caller. -/
+def preambleResult (ctx : Bool) : Preamble → Option (Option (Option Nat))
+  | .protocol => none
+  | .trivial n => some (some (some n))
+  | .waitCancel => if ctx then some (some none) else none
+  | .invalidTarget => some none
+
 end Iota.Mine
